@@ -299,4 +299,11 @@ def run(prog: Program, col: Collector, tier: str, refs: Optional[Refs] = None, c
     # the kernel behind the eager (logaddexp, add) contraction that a normalized expression is reinterpreted with
     from . import numerics
     numerics.run(prog, col, refs, cat, rule_log="R03.11", rule_safe=None)
+    # what a deferred reduction over a variable the operand does not mention evaluates to (shared with C01 R01.4), and the normalize
+    # rule that pushes a substitution into the operands of a contraction (shared with C04 R04.1 / R04.4)
+    algebra.r_power(prog, col, refs, cat, "R03.12")
+    col.rule("R03.13", "substitution pairs are applied at once, never one at a time to an evolving result", floor=3)
+    c04._sequential_loops(prog, col, refs, cat, c04._subs_collections(prog, refs, cat))
+    col.rule("R03.14", "a guard over the pairs of a substitution that drops or narrows pairs is universal", floor=2)
+    c04._quantified_guards(prog, col, refs, cat, c04._subs_collections(prog, refs, cat))
     return col
